@@ -439,6 +439,25 @@ func TestC18(t *testing.T) {
 		}
 	}
 	e2b.done(true)
+	// pattern syntax: queries that would mean something else if any of their bytes reached a regular-expression engine
+	// unescaped (counted repetition, groups, classes, anchors, flags, escapes), alone and after / between letters;
+	// against the text itself (the only thing they may match) and against what they would match as patterns
+	ep := enumPart(t, c18Prop, st, "pattern-syntax")
+	frags := []string{"{2}", "{1,}", "{1,2}", "{0}", "{3,2}", "{1001}", "{", "}", "{}", "{,2}", "(a)", "(", ")", "(?i)", "(?:a)", "(?P<x>a)", "[ac]", "[", "]", "[^a]", "[[:alpha:]]",
+		"|", "*", "+", "?", "*?", "+?", ".", "^", "$", "\\", "\\d", "\\pL", "\\Q", "\\E", "\\x61", "\\b", "\\z", "-", "&", "~", "#", " ", "\t", "1", "2"}
+	for _, f := range frags {
+		for _, q := range []string{f, "a" + f, "a" + f + "c", f + "a", "n" + f, "ac" + f + f} {
+			for _, seq := range []string{"gg" + q + "tt", q + q, "aaaacccc", "acacacgtn", "ggaactt", strings.ToUpper(q) + "x" + q} {
+				if !ep.try(c18Case{Mode: "match", Seq: seq, Query: q}) {
+					return
+				}
+				if !ep.try(c18Case{Mode: "search", Seq: seq, Query: q}) {
+					return
+				}
+			}
+		}
+	}
+	ep.done(true)
 	// exhaustive small strings: sequences of length <=5 and queries of length <=3 over {a,c,G}
 	e3 := enumPart(t, c18Prop, st, "exhaustive-small-strings")
 	var all func(alpha string, n int) []string
